@@ -8,6 +8,8 @@ if os.environ.get("PYTHONHASHSEED") != "0" and __name__ == "__main__":
     # hash randomisation must be off before the interpreter starts: re-exec once
     os.environ["PYTHONHASHSEED"] = "0"
     os.execv(sys.executable, [sys.executable, "-m", "mc.run"] + sys.argv[1:])
+for _v in ("OMP_NUM_THREADS", "OPENBLAS_NUM_THREADS", "MKL_NUM_THREADS", "NUMEXPR_NUM_THREADS"):
+    os.environ.setdefault(_v, "1")    # 16 worker processes: no nested BLAS thread pools
 os.environ.setdefault("MPLBACKEND", "Agg")
 os.environ["DISCOPY_VERIF"] = "1"
 sys.path.insert(0, os.environ.get("DISCOPY_REPO", "/repo"))
